@@ -156,6 +156,26 @@ def Verifier.verify (v : Verifier) (buf : Bytes) (rdok parseOK : Bool) : Outcome
   | .err => .err
   | .panic m => .panic m
 
+/-! ### client: which requests are signed (`TSigner::should_sign_message`) -/
+
+/-- the query types of the `qd` questions starting at `pos` (`none` if they cannot be read) -/
+def queryTypes (buf : Bytes) : Nat → Nat → Option (List Nat)
+  | 0, _ => some []
+  | k + 1, pos =>
+    match readQuery buf pos with
+    | .ok (_, t, _, p) => (queryTypes buf k p).map (t :: ·)
+    | _ => none
+
+/-- `should_sign_message`: opcode UPDATE (5) or NOTIFY (4), or some question of type AXFR (252) or
+IXFR (251).  Everything else leaves the client unsigned (and unverified). -/
+def shouldSign (buf : Bytes) : Option Bool :=
+  match readHdr buf with
+  | none => none
+  | some h =>
+    match queryTypes buf h.qd 12 with
+    | none => none
+    | some ts => some (h.opcode == 5 || h.opcode == 4 || ts.any (fun t => t == 252 || t == 251))
+
 /-! ### server: response TSIG -/
 
 /-- what `TSigResponseContext::sign` will attach to the reply -/
